@@ -630,6 +630,8 @@ noncomputable instance instRealFnReal : RealFn ℝ where
   artanh := Real.artanh
   arcsin := Real.arcsin
   abs := fun x => |x|
+  sinc := fun x => if x = 0 then 1 else Real.sin (Real.pi * x) / (Real.pi * x)
+  lt := fun a b => decide (a < b)
 
 theorem rc2lar_real (k : ℝ) : rc2lar k = -2 * Real.artanh (-k) := by
   simp [rc2lar, RealFn.artanh]
